@@ -1,0 +1,77 @@
+//go:build verif
+
+package dkg
+
+// Glue between the ceremony and the kyber library (checked by /verif/gocv; comment-only file).
+// kyber objects are abstract: ptEq(a, b) stands for Point.Equal.
+//@ import kyber "github.com/corestario/kyber"
+//@ ghost func ptEq(a kyber.Point, b kyber.Point) bool
+//@ func (github.com/corestario/kyber.Point).Equal
+//@   assumed
+//@   pure
+//@   ensures result == ptEq(self, s2)
+
+// ---- the participant table (entries are never nil: StorePubKey is the only producer)
+//@ spec func wfStore(s PKStore) bool = forall i int :: 0 <= i && i < len(s) ==> s[i] != nil
+//@ func (PKStore).GetPKByIndex
+//@   safety C18,C04
+//@   requires wfStore(s)
+//@   pure
+//@   ensures[C04.pk.index] result != nil ==> 0 <= index && index < len(s) && result == s[index].PK
+//@ func (PKStore).GetParticipantByIndex
+//@   safety C18,C04
+//@   requires wfStore(s)
+//@   pure
+//@   ensures[C04.pk.index] result == ite(0 <= index && index < len(s), s[index].Participant, "")
+// a deal is encrypted for the key registered under exactly the addressee's name
+//@ func (PKStore).GetPKByParticipant
+//@   safety C18,C04
+//@   requires wfStore(s)
+//@   pure
+//@   loop 0 invariant forall j int :: 0 <= j && j <= $i ==> s[j].Participant != p
+//@   ensures[C04.pk.byname] result1 == nil ==> (exists i int :: 0 <= i && i < len(s) && s[i].Participant == p && result0 == s[i].PK)
+//@   ensures[C04.pk.byname] result1 != nil ==> (forall i int :: 0 <= i && i < len(s) ==> s[i].Participant != p)
+
+// ---- a private deal must repeat exactly the commitments its dealer broadcast
+//@ import vss "github.com/corestario/kyber/share/vss/pedersen"
+//@ import kdkg "github.com/corestario/kyber/share/dkg/pedersen"
+//@ ghost var $dec *vss.Deal
+//@ func (*github.com/corestario/kyber/share/vss/pedersen.Verifier).DecryptDeal
+//@   assumed
+//@   pure
+//@   epilogue $dec = result0
+//@   ensures result1 == nil ==> result0 != nil
+
+//@ func (*DKG).processDealCommits
+//@   safety C18,C11
+//@   requires d != nil && verifier != nil && deal != nil && wfStore(d.pubKeys) && d.commits != nil
+//@   pure
+//@   modifies $dec
+//@   loop 0 invariant len(originalCommits) == $i + 1 && (forall j int :: 0 <= j && j <= $i ==> originalCommits[j] == commitsData[j] && originalCommits[j] != nil)
+//@   loop 1 invariant forall j int :: 0 <= j && j <= $i ==> ptEq(originalCommits[j], $dec.Commitments[j])
+//@   ensures[C11.commits,C02.commits] result0 ==> result1 == nil && $dec != nil && (dealerOf(d, deal) in d.commits) && len(d.commits[dealerOf(d, deal)]) == len($dec.Commitments) && (forall j int :: 0 <= j && j < len($dec.Commitments) ==> ptEq(d.commits[dealerOf(d, deal)][j], $dec.Commitments[j]))
+//@ spec func dealerOf(d *DKG, deal *kdkg.Deal) string = ite(0 <= int(deal.Index) && int(deal.Index) < len(d.pubKeys), d.pubKeys[int(deal.Index)].Participant, "")
+
+// ---- the kyber generator gets exactly the round's parameters and a reader made from the given seed in this call
+//@ import frand "lukechampine.com/frand"
+//@ ghost var $reader interface{}
+//@ ghost var $readerSeed bytesvalue
+//@ func lukechampine.com/frand.NewCustom
+//@   assumed
+//@   pure
+//@   epilogue $reader = box(result)
+//@   epilogue $readerSeed = content(seed)
+//@   ensures result != nil
+//@ func (*DKG).InitDKGInstance
+//@   nosafety
+//@   requires d != nil
+//@   modifies DKG.ParticipantID, DKG.responses, DKG.instance, []*PK2Participant, *frand.RNG
+//@   modifies $reader, $readerSeed
+//@   assert@call NewDistKeyGenerator[C01.threshold,C02.threshold] arg3 == d.Threshold
+//@   assert@call NewDistKeyGenerator[C12.entropy.round] arg4 == $reader && $readerSeed == content(seed)
+
+// ---- the public form of a keyring (sent to the hot node and to the board) carries commitments only, never the share
+//@ func (*BLSKeyring).PubPolyBytes
+//@   nosafety
+//@   modifies *
+//@   assert@call Marshal[C04.pubpoly.noshare] istype(v, "blsKeyringJSON") && len(v.(blsKeyringJSON).Share) == 0
